@@ -104,7 +104,12 @@ func (dist *NegativeBinomialDistribution) LogPdf(r Scalar, x ConstScalar) error 
   t2.Add(x, dist.c1)
   t2.Lgamma(t2)
 
-  r.Mul(x, dist.p)
+  // p^k (where 0^0 = 1)
+  if x.GetFloat64() == 0.0 {
+    r.SetFloat64(0.0)
+  } else {
+    r.Mul(x, dist.p)
+  }
   r.Add(r, t1)
   r.Sub(r, t2)
   r.Add(r, dist.z)
